@@ -518,7 +518,10 @@ def addClause (before after : Cache) (ifName : BList) (ifIdx : Nat) (inc : Recor
       let a' := if isNew then a.drop 1 else a
       -- the entry that is the incoming record itself: first one that matches it
       let selfIdx := b.findIdx fun e => e.record.matchesRec inc
-      if res.take 2 != ["some", boolTok isNew] then some "C11.add-result"
+      -- reported as new: not held before, or held as a withdrawn copy (TTL <= 1) that is
+      -- announced again (repair of D24)
+      let revived := !isNew && ((b[selfIdx]?).map fun e => decide (e.record.ttl ≤ 1 ∧ inc.ttl > 1)).getD false
+      if res.take 2 != ["some", boolTok (isNew || revived)] then some "C11.add-result"
       else if isNew && a.head? != some { record := inc, srcName := ifName, srcIdx := ifIdx } then some "C11.new-record-not-stored"
       else if a'.length != b.length then some "C11.entries-lost-or-invented"
       else
